@@ -128,6 +128,15 @@ Definition parse_one (rx : bytes) : parse_res :=
   | _ => PShortHeader
   end.
 
+(* The length field of a header is an unsigned 32-bit number and [parse_one] treats it as such: the reader allocates
+   a buffer of that many bytes — whatever the number, there is no upper bound in the code — and io.ReadFull waits for
+   them; a length beyond what the trunk still carries ends as PNoPayload / PShortPayload when the trunk ends.  That the
+   code holds the length in an unsigned (or wide enough) type on its way to make([]byte, …) is read from mux.go on
+   every run (MuxConsts.length_unsigned); in a signed 32-bit variable a length of 2^31 or more is negative and make
+   panics.  [alloc_len unsigned raw]: the size make is called with, None = panic. *)
+Definition alloc_len (unsigned : bool) (raw : N) : option N :=
+  if unsigned then Some raw else if raw <? 2147483648 then Some raw else None.
+
 Inductive tail := TEof | TShortHeader | TNoPayload | TShortPayload.
 
 (* all complete frames of a byte stream, and how it ends; None = out of fuel *)
